@@ -158,6 +158,15 @@ def module_resolver(idx: Index, relpath: str):
         return None
     return resolve
 
+def module_str_set(idx: Index, relpath: str, name: str):
+    """a module-level table of names as a frozenset of strings: a literal set, or an expression over other module-level tables (unions, differences,
+    set(...)) folded from the syntax tree; None when it is neither"""
+    v = module_resolver(idx, relpath)(name)
+    if isinstance(v, (set, frozenset, list, tuple)) and all(isinstance(x, str) for x in v):
+        return frozenset(v)
+    return None
+
+
 
 def make_folder(idx: Index, relpath: str, **kw) -> Folder:
     """Folder whose names resolve in `relpath`, and whose callees resolve names in their own modules"""
